@@ -14,6 +14,7 @@ import (
 	"verif/sim/internal/sched"
 	"verif/sim/internal/shrink"
 	"verif/sim/internal/tape"
+	"verif/sim/internal/world"
 )
 
 // tapeCmd records the tape and trace of one run (used for runs whose verdict
@@ -38,7 +39,7 @@ func tapeCmd(args []string) {
 		orig[k] = len(l)
 	}
 	rf := ReplayFile{Property: *prop, Engine: e.Name(), Rule: *rule, MasterSeed: *seed, RunIndex: *idx, RunSeed: rs,
-		Build: map[string]any{"tags": "verif", "race": true}, Tape: t.Record(), SchedHash: strconv.FormatUint(res.SchedHash, 16),
+		Build: map[string]any{"tags": "verif", "race": true, "autoyield": world.AutoMode}, Tape: t.Record(), SchedHash: strconv.FormatUint(res.SchedHash, 16),
 		Violation: eng.Violation{Property: *prop, Rule: *rule, Detail: *detail, Shape: map[string]string{"pair": *detail}}, Trace: res.Trace, Original: orig,
 		Note: "verdict from the Go race detector (scheduler hand-off hidden from it). Replay re-executes this tape in fresh processes of the -race build; " +
 			"sync.Pool inside reflect/regexp/fmt can add accidental happens-before edges, so up to 10 attempts are made.\n" + *report}
